@@ -16,6 +16,7 @@ CONSTANTS
   Modes = {"invoke"}
   AllowKeyed = FALSE
   FirstOnly = FALSE
+  DedupIgnoresHead = FALSE
   KeyedStreamDrops = FALSE
   RestoreDropsOpts = FALSE
   CallMode = "subsets"
